@@ -1,4 +1,125 @@
+"""C12 part (b): parse information is exact.
+
+For every grammar of a named-rule corpus and every input, with parseinfo on,
+every dict-like AST in the result carries a parseinfo whose rule is a rule
+that returned that value (per the reference evaluator's call log), whose
+pos/endpos delimit exactly what that rule consumed after leading whitespace,
+and whose line is the line of pos.
+"""
+from __future__ import annotations
+
+from .. import gramspace as gs
+from .. import impl
+from ..refsem import Cfg, Ref, Undecided
+from . import c01
+
+EXTRA = [
+    ('nested', [gs.Rule('start', ('seq', ('named', 'l', ('call', 's')), ('named', 'r', ('clo', ('call', 'u'))))),
+                gs.Rule('u', ('seq', ('named', 'k', ('tok', 'b')), ('named', 'v', ('opt', ('call', 's')))))]),
+    ('alias', [gs.Rule('start', ('call', 'w')), gs.Rule('w', ('call', 's'))]),
+    ('choice', [gs.Rule('start', ('alt', ('seq', ('named', 'p', ('tok', 'b')), ('named', 'q', ('call', 's'))), ('named', 'z', ('call', 's'))))]),
+]
+
+
+def walk(v, path=()):
+    """Yield (path, dict node) for every dict-like AST inside a normalised value."""
+    if isinstance(v, dict):
+        yield path, v
+        for k, x in v.items():
+            if k not in ('parseinfo', '__parseinfo__'):
+                yield from walk(x, path + (k,))
+    elif isinstance(v, list):
+        for i, x in enumerate(v):
+            yield from walk(x, path + (i,))
+
+
+def strip_pi(v):
+    if isinstance(v, dict):
+        return {k: strip_pi(x) for k, x in v.items() if k not in ('parseinfo', '__parseinfo__')}
+    if isinstance(v, list):
+        return [strip_pi(x) for x in v]
+    return v
+
+
+def line_of(text, pos):
+    n = 0
+    i = 0
+    while i < pos:
+        c = text[i]
+        if c == '\r':
+            n += 1
+            if i + 1 < pos and text[i + 1] == '\n':
+                i += 1
+            elif i + 1 < len(text) and text[i + 1] == '\n' and i + 1 == pos:
+                pass
+        elif c == '\n':
+            n += 1
+        i += 1
+    return n
+
+
+def check(m, label, g, model, text):
+    ref = Ref(g, Cfg())
+    try:
+        want = ref.parse(text)
+    except (Undecided, RecursionError):
+        return
+    got = impl.parse(model, text, parseinfo=True)
+    m.add('evaluations')
+    if want[0] != 'ok' or got[0] != 'ok':
+        return
+    nodes = list(walk(got[1]))
+    if not nodes:
+        return
+    m.add('b_cases')
+    records = ref.calls
+    for path, node in nodes:
+        m.add('nontrivial')
+        pi = node.get('parseinfo')
+        plain = strip_pi(node)
+        if pi is None or node.get('__parseinfo__') != pi:
+            m.violation('b/parseinfo-missing', grammar=label, input=text, path=list(path), node=node)
+            continue
+        rule, pos, endpos, line, endline = pi
+        hits = [r for r in records if r[0] == rule and r[3] == plain]
+        if not hits:
+            m.violation('b/rule-did-not-return-this-node', grammar=label, input=text, path=list(path), parseinfo=pi, node=plain,
+                        returned_by=sorted({r[0] for r in records if r[3] == plain}))
+            continue
+        if not any(r[1] == pos and r[2] == endpos for r in hits):
+            m.violation('b/span-differs', grammar=label, input=text, path=list(path), parseinfo=pi,
+                        documented_spans=sorted({(r[1], r[2]) for r in hits}))
+            continue
+        if line != line_of(text, pos):
+            m.violation('b/start-line-differs', grammar=label, input=text, path=list(path), parseinfo=pi, want_line=line_of(text, pos))
+
+
+def shard(m, items, inputs=()):
+    for label, g in items:
+        try:
+            model = impl.compile_text(gs.render_grammar(g))
+        except Exception as ex:  # noqa
+            m.violation(f'b/compile-failed/{type(ex).__name__}', grammar=label, error=str(ex)[:200])
+            continue
+        m.add('b_programs')
+        for t in inputs:
+            check(m, label, g, model, t)
+
+
 def run_partb(rc):
-    pass
+    quick = rc.tier == 'quick'
+    exps = [e for e in c01.expressions(3) if c01.in_language(e) is None
+            and (gs.kinds(e) & {'named', 'nlist'} or ('call', 's') in set(gs.subexps(e)))]
+    items = [('start: ' + gs.render(e), gs.Grammar(rules=[gs.Rule('start', e)] + c01.HELPERS)) for e in exps]
+    for name, rules in EXTRA:
+        g = gs.Grammar(rules=rules + c01.HELPERS)
+        items.append(('; '.join(gs.render_rule(r) for r in rules), g))
+    inputs = list(gs.inputs(['a', 'b', ' ', '\n'], 4 if quick else 5)) + ['\r\na b', ' \r a', 'a\rb', 'b a b\nb a\n']
+    rc.pmap(shard, items, inputs=inputs)
+    rc.coverage['partb'] = {'programs': rc.count('b_programs'), 'accepted_cases_with_dict_nodes': rc.count('b_cases'),
+                            'inputs_per_program': len(inputs)}
+
+
 def replay(data):
-    return 0
+    print(data)
+    return 1
